@@ -527,7 +527,8 @@ def pe_check(blob, label, queries=True):
     return out, n
 
 
-def macho_build(is64, nsect, variant):
+def macho_build(is64, nsect, variant, layout="plain"):
+    """layout 'zerofill': __PAGEZERO before and a zero-fill segment (no file content) after __TEXT"""
     MH = 0xFEEDFACF if is64 else 0xFEEDFACE
     hdr_fmt = "<IiiIIII" + ("I" if is64 else "")
     segname = b"__TEXT".ljust(16, b"\0")
@@ -537,8 +538,13 @@ def macho_build(is64, nsect, variant):
     segsz = struct.calcsize(seg_fmt) + nsect * struct.calcsize(sect_fmt)
     symtab_cmd = struct.pack("<IIIIII", 2, 24, 0, 0, 0, 0)
     main_cmd = struct.pack("<IIQQ", 0x80000028, 24, 0x200 + 4 * variant, 0)
-    sizeofcmds = segsz + len(symtab_cmd) + len(main_cmd)
-    hdr = struct.pack(hdr_fmt, *([MH, 0x01000007 if is64 else 7, 3, 2, 3, sizeofcmds, 0x85 + variant] + ([0] if is64 else [])))
+    pre = post = b""
+    if layout == "zerofill":
+        pre = struct.pack(seg_fmt, 0x19 if is64 else 1, struct.calcsize(seg_fmt), b"__PAGEZERO".ljust(16, b"\0"), 0, base, 0, 0, 0, 0, 0, 0)
+        post = struct.pack(seg_fmt, 0x19 if is64 else 1, struct.calcsize(seg_fmt), b"__BSS".ljust(16, b"\0"), base + 0x3000, 0x1000, 0, 0, 3, 3, 0, 0)
+    ncmds = 3 + (2 if layout == "zerofill" else 0)
+    sizeofcmds = segsz + len(symtab_cmd) + len(main_cmd) + len(pre) + len(post)
+    hdr = struct.pack(hdr_fmt, *([MH, 0x01000007 if is64 else 7, 3, 2, ncmds, sizeofcmds, 0x85 + variant] + ([0] if is64 else [])))
     filesize = 0x400
     seg = struct.pack(seg_fmt, 0x19 if is64 else 1, segsz, segname, base, 0x1000, 0, filesize, 7, 5, nsect, 0)
     sects = b""
@@ -553,9 +559,11 @@ def macho_build(is64, nsect, variant):
         else:
             sects += struct.pack(sect_fmt, nm, segname, addr, size, off, 2, 0, 0, 0x80000400 if i == 0 else 0, 0, 0)
         descr.append(dict(name=nm.rstrip(b"\0"), addr=addr, size=size, offset=off))
-    blob = (hdr + seg + sects + symtab_cmd + main_cmd).ljust(0x200, b"\0")
+    blob = (hdr + pre + seg + sects + post + symtab_cmd + main_cmd)
+    assert len(blob) <= 0x200
+    blob = blob.ljust(0x200, b"\0")
     blob += bytes(((j * 11 + 5) & 0xFF) for j in range(filesize - 0x200))
-    return bytes(blob), dict(magic=MH, ncmds=3, sizeofcmds=sizeofcmds, flags=0x85 + variant, vmaddr=base, vmsize=0x1000, filesize=filesize,
+    return bytes(blob), dict(magic=MH, ncmds=ncmds, nsegs=1 + (2 if layout == "zerofill" else 0), text_index=1 if layout == "zerofill" else 0, sizeofcmds=sizeofcmds, flags=0x85 + variant, vmaddr=base, vmsize=0x1000, filesize=filesize,
                              sects=descr, entry=base + 0x200 + 4 * variant, cputype=0x01000007 if is64 else 7)
 
 
@@ -577,10 +585,10 @@ def macho_check(blob, d, label):
         if getattr(p.header, k, None) != d[k]:
             F("field", "header." + k, "header.%s = %r, file encodes %r" % (k, getattr(p.header, k, None), d[k]))
     segs = [c for c in p.cmds if getattr(c, "cmd", None) in (1, 0x19)]
-    if len(segs) != 1:
-        F("count", "segments", "%d segment commands, file has 1" % len(segs))
+    if len(segs) != d.get("nsegs", 1):
+        F("count", "segments", "%d segment commands, file has %d" % (len(segs), d.get("nsegs", 1)))
         return out, n
-    s = segs[0]
+    s = segs[d.get("text_index", 0)]
     for k, v in (("vmaddr", d["vmaddr"]), ("vmsize", d["vmsize"]), ("filesize", d["filesize"]), ("nsects", len(d["sects"]))):
         n += 1
         if getattr(s, k, None) != v:
@@ -643,6 +651,15 @@ def hex_streams():
     S.append(([("ela", 0x0002), ("data", 0x10, D(4, 1)), ("esa", 0x1000), ("data", 0x20, D(4, 5))], "ela-then-esa"))
     S.append(([("esa", 0x1000), ("ela", 0x0000), ("data", 0x20, D(4, 5))], "ela0-after-esa"))
     S.append(([("ela", 0x0002), ("esa", 0x0000), ("data", 0x20, D(4, 5))], "esa0-after-ela"))
+    # every sequence of up to three base-address records (segment bases with non-zero low bits included), data after each
+    menu = [("esa", 0x1234), ("esa", 0x0FF0), ("ela", 0x0800), ("ela", 0x0002)]
+    for k in (2, 3):
+        for seq in itertools.product(menu, repeat=k):
+            recs = []
+            for j, r in enumerate(seq):
+                recs.append(r)
+                recs.append(("data", 0x20 + 0x10 * j, D(4, j + 1)))
+            S.append((recs, "-then-".join(r[0] for r in seq)))
     S.append(([("data", 0, D(2, 1)), ("ssa", 0x1234, 0x5678)], "start-segment"))
     S.append(([("data", 0, D(2, 1)), ("sla", 0x08001234)], "start-linear"))
     return S
@@ -808,11 +825,11 @@ def unit(args):
                 n += k
                 fails += [Failure(s, w, dict(c, gen=[plus, nsec, ndirs, variant, optpad, imp])).to_json() for s, w, c in out]
         elif kind == "macho":
-            for (is64, nsect, variant) in payload:
-                blob, d = macho_build(is64, nsect, variant)
-                out, k = macho_check(blob, d, "MachO%d/%dsect/v%d" % (64 if is64 else 32, nsect, variant))
+            for (is64, nsect, variant, lay) in payload:
+                blob, d = macho_build(is64, nsect, variant, lay)
+                out, k = macho_check(blob, d, "MachO%d/%dsect/v%d/%s" % (64 if is64 else 32, nsect, variant, lay))
                 n += k
-                fails += [Failure(s, w, dict(c, gen=[is64, nsect, variant])).to_json() for s, w, c in out]
+                fails += [Failure(s, w, dict(c, gen=[is64, nsect, variant, lay])).to_json() for s, w, c in out]
         elif kind == "hex":
             out, n = hex_check()
             fails = [Failure(s, w, c).to_json() for s, w, c in out]
@@ -843,7 +860,7 @@ def run(tier, seed):
            for v in ((0, 1, 2) if tier == "thorough" else (0, 1)) for pad in (0, 8, 48)]
     pes += [(plus, nsec, ndirs, 1, 0, imp) for plus in (False, True) for nsec in (2, 3) for ndirs in (2, 16) for imp in sorted(IMPORT_MENUS)]
     jobs.append(("pe", pes))
-    machos = [(is64, ns, v) for is64 in (False, True) for ns in (0, 1, 2) for v in (0, 1)]
+    machos = [(is64, ns, v, lay) for is64 in (False, True) for ns in (0, 1, 2) for v in (0, 1) for lay in ("plain", "zerofill")]
     jobs.append(("macho", machos))
     jobs.append(("hex", None))
     jobs.append(("srec", None))
